@@ -59,8 +59,10 @@ CbInputs ==
             : g \in fbleft, r \in (IF nfault < MaxFaults THEN BOOLEAN ELSE {FALSE})}
     ELSE IF Head(todo).k \in Pseudo THEN {}
     ELSE LET s == Head(todo) IN
-         {[e |-> "cb", k |-> s.k, o |-> s.o, key |-> "", raise |-> r, w |-> w, adv |-> a, ret |-> 0, eng |-> g]
-            : r \in (IF nfault < MaxFaults /\ s.k # "setup" THEN BOOLEAN ELSE {FALSE}),
+         {[e |-> "cb", k |-> s.k, o |-> s.o, key |-> "", raise |-> r, w |-> w, adv |-> a, ret |-> 0, eng |-> g, dsw |-> dw]
+            : dw \in (IF nchg < MaxChg /\ s.k \in {"on_disable", "teleopInit", "disabledInit", "teleopPeriodic"}
+                      THEN {""} \cup ({"disabled", "teleop", "auto"} \ {dsNew}) ELSE {""}),
+              r \in (IF nfault < MaxFaults /\ s.k # "setup" THEN BOOLEAN ELSE {FALSE}),
               w \in WritesFor(s.k, s.o),
               g \in (IF s.k \in {"teleopPeriodic", "auto.on_iteration", "execute", "disabledPeriodic", "on_enable"}
                      THEN {<<>>} \cup {<<c>> : c \in sh.sm} ELSE {<<>>}),
@@ -70,7 +72,7 @@ EnvInputs ==
     IF pc # "wait" THEN {}
     ELSE {[e |-> "wake"]}
          \cup (IF nchg < MaxChg
-               THEN {[e |-> "ds", m |-> m] : m \in {"disabled", "auto", "teleop", "test"} \ {ds}}
+               THEN {[e |-> "ds", m |-> m] : m \in {"disabled", "auto", "teleop", "test"} \ {dsNew}}
                     \cup (IF AllowFmsToggle THEN {[e |-> "fms", b |-> ~fms]} ELSE {})
                     \cup {[e |-> "sel", s |-> s] : s \in (sh.modes \cup {"bogus"}) \ {selStr}}
                     \cup (IF AllowEnd /\ ~exit THEN {[e |-> "end"]} ELSE {})
@@ -81,13 +83,14 @@ Inputs == CbInputs \cup EnvInputs
 MCNext ==
     IF SilentEnabled THEN Silent /\ UNCHANGED nchg
     ELSE \E ev \in Inputs : /\ EvNext(ev)
-                            /\ nchg' = nchg + (IF ev.e \in {"ds", "fms", "sel", "end"} THEN 1 ELSE 0)
+                            /\ nchg' = nchg + (IF ev.e \in {"ds", "fms", "sel", "end"} \/ (ev.e = "cb" /\ "dsw" \in DOMAIN ev /\ ev.dsw # "")
+                                               THEN 1 ELSE 0)
 MCSpec == MCInit /\ [][MCNext]_<<rvars, nchg>>
 
 Bound == iterNo <= MaxIter
 
 \* absolute time is irrelevant; only the distance to the alarm and to the autonomous timer matter
-MCView == <<sh, ds, fms, exit, selStr, pc, mode, ntMode, todo, fbleft, en, nsetup, rv, smReq, fbNT, alarm - now,
+MCView == <<sh, ds, dsNew, fms, exit, selStr, pc, mode, ntMode, todo, fbleft, en, nsetup, rv, smReq, fbNT, alarm - now,
             IF mode = "auto" THEN now - autoT0 ELSE 0, active, mIter, nfault, swallowed, nchg,
             iterNo>>
 
@@ -105,5 +108,7 @@ Probe_Overrun == ~(pc = "wait" /\ now > alarm)
 Probe_Exited == pc # "exited"
 Probe_SmGo == ~(\E c \in sh.sm : smReq[c] /\ NextSite = Site("execute", c))
 Probe_SmReqSurvivesDisable == ~(\E c \in sh.sm : smReq[c] /\ mode = "disabled" /\ pc = "wait")   \* engaged from disabledPeriodic
+\* the driver station changed its mind while the robot was leaving a mode: the dispatcher acts on the word it polled
+Probe_StaleDispatch == ~(pc = "dispatch" /\ todo = <<>> /\ ds # dsNew)
 Probe_DirectSwitch == ~(mode = "teleop" /\ pc = "enter" /\ \E c \in CompSet : en[c])
 =============================================================================
